@@ -2,6 +2,7 @@ import PyImpSpec.ExprC
 import PyImpSpec.Gen.Kernels
 import Mathlib.Analysis.Complex.Norm
 import Mathlib.Algebra.BigOperators.Group.List.Basic
+import PyImpSpec.DataSet.Model
 
 /-! # C08 — every analysis result is internally consistent with the data it came from
 
@@ -51,6 +52,58 @@ theorem chisqr_eq_sum_normSq_residuals (pts : List (ℂ × ℂ)) (h : ∀ p ∈ 
       = (pts.map fun p => ((Complex.normSq (evalC (envOf p.1 p.2) Gen.K.residual) : ℝ) : ℂ)).sum := by
   congr 1
   exact List.map_congr_left (fun p hp => chisqrTerm_eq_normSq_residual p.1 p.2 (h p hp))
+
+/-! ## masked points do not take part -/
+
+/-- **What an analysis reads through the default (unmasked) view does not depend on the masked points**:
+two data sets (model of C05) with the same mask that agree on every unmasked point — whatever garbage the
+masked points hold — present the same list of (frequency, impedance) pairs, hence yield the same
+residuals, pseudo chi-squared and every other quantity computed from that view. -/
+theorem unmasked_view_ignores_masked_points (m : List Bool) (fz fz' : List (Int × Int)) (hl : fz.length = fz'.length)
+    (hagree : ∀ i (h : i < fz.length) (h' : i < fz'.length), m.getD i false = false → fz[i] = fz'[i]) :
+    (fz.zip m).filterMap (fun t => if t.2 = false then some t.1 else none)
+      = (fz'.zip m).filterMap (fun t => if t.2 = false then some t.1 else none) := by
+  induction fz generalizing fz' m with
+  | nil =>
+    cases fz' with
+    | nil => rfl
+    | cons a t => simp at hl
+  | cons a t ih =>
+    cases fz' with
+    | nil => simp at hl
+    | cons a' t' =>
+      cases m with
+      | nil => simp
+      | cons b mt =>
+        simp only [List.length_cons, Nat.add_right_cancel_iff] at hl
+        have htail := ih mt t' hl (fun i h h' hm => by
+          have := hagree (i + 1) (by simp; omega) (by simp; omega) (by simpa using hm)
+          simpa using this)
+        simp only [List.zip_cons_cons, List.filterMap_cons]
+        cases b with
+        | true => simpa using htail
+        | false =>
+          have h0 := hagree 0 (by simp) (by simp) (by simp)
+          simp only [List.getElem_cons_zero] at h0
+          subst h0
+          simp [htail]
+
+/-- in terms of the data-set model: same frequencies and mask, impedances equal on the unmasked points -/
+theorem view_ignores_masked (d d' : DataSet.DS) (hf : d.freqs = d'.freqs) (hm : d.mask = d'.mask)
+    (hl : d.imps.length = d'.imps.length) (hfl : d.freqs.length = d.imps.length)
+    (hz : ∀ i (h : i < d.imps.length) (h' : i < d'.imps.length), d.mask.getD i false = false → d.imps[i] = d'.imps[i]) :
+    d.view (some false) = d'.view (some false) := by
+  unfold DataSet.DS.view
+  simp only
+  rw [← hm, ← hf]
+  apply unmasked_view_ignores_masked_points
+  · simp [List.length_zip, hl]
+  · intro i h h' hmi
+    simp only [List.length_zip] at h h'
+    have h1 : i < d.imps.length := by omega
+    have h2 : i < d'.imps.length := by omega
+    simp only [List.getElem_zip]
+    rw [hz i h1 h2 hmi]
 
 /-- the kernels found in `/repo` are the three covered above -/
 theorem all_analysis_kernels_covered : Gen.K.analysisKernels = ["residual", "boukampWeight", "chisqrTerm"] := by decide
